@@ -25,7 +25,11 @@ impl<T> VerifIter<T> {
         }
     { unimplemented!() }
 }
-/// `for x in &vec`: the elements in order
+/// what `for x in <value>` yields, in order (rule N21 hands every `for` iterable to `verif_into_iter`)
+pub trait VerifIntoIter: Sized { type Item; spec fn verif_items(self) -> Seq<Self::Item>; }
+impl<T> VerifIntoIter for VerifIter<T> { type Item = T; open spec fn verif_items(self) -> Seq<T> { self@ } }
+impl<'a, T> VerifIntoIter for &'a Vec<T> { type Item = &'a T; open spec fn verif_items(self) -> Seq<&'a T> { Seq::new(self@.len(), |i: int| &self@[i]) } }
+impl<'a, T> VerifIntoIter for &'a [T] { type Item = &'a T; open spec fn verif_items(self) -> Seq<&'a T> { Seq::new(self@.len(), |i: int| &self@[i]) } }
+impl<T> VerifIntoIter for Vec<T> { type Item = T; open spec fn verif_items(self) -> Seq<T> { self@ } }
 #[verifier::external_body]
-pub fn verif_vec_iter<'a, T>(v: &'a Vec<T>) -> (r: VerifIter<&'a T>)
-    ensures r@.len() == v@.len(), forall |i: int| 0 <= i < v@.len() ==> *(#[trigger] r@[i]) == v@[i] { unimplemented!() }
+pub fn verif_into_iter<I: VerifIntoIter>(i: I) -> (r: VerifIter<I::Item>) ensures r@ == i.verif_items() { unimplemented!() }
